@@ -72,9 +72,21 @@ def main(prop, path):
             if ok != m["ok"] or (ok and norm(b.as_dict) != norm(m["action"])):
                 fails.append("decoder and model disagree")
         else:
-            print(json.dumps(rep, indent=1, default=str)[:3000])
-            print("  (no automatic re-execution for this kind of record; the record above is the failing input)")
-            fails.append("not re-executed")
+            # no dedicated re-executor for this kind of record: the check that produced it is deterministic for a given seed,
+            # so it is run again (same tier and seed) and the same signature is looked for
+            import os
+            import re
+            import subprocess
+            print(json.dumps(rep, indent=1, default=str)[:1500])
+            sig = doc.get("signature")
+            env = dict(os.environ, VERIF_SEED=str(doc.get("seed", 0)))
+            here = os.path.dirname(os.path.dirname(os.path.dirname(os.path.abspath(__file__))))
+            r = subprocess.run([os.path.join(here, "bin", "check"), prop, "--tier", str(doc.get("tier", "quick"))], capture_output=True, text=True, env=env, timeout=7200)
+            name = re.sub(r"[^A-Za-z0-9_.-]+", "_", sig or "")[:80]
+            again = [ln for ln in r.stdout.splitlines() if ln.startswith("VIOLATION") and (name and name + ".json" in ln)]
+            print(f"  re-ran bin/check {prop} --tier {doc.get('tier', 'quick')} with VERIF_SEED={doc.get('seed', 0)}: exit {r.returncode}, signature {'reported again' if again else 'not reported'}")
+            if again:
+                fails.append(f"the check reports the same signature again: {sig}")
     finally:
         drv.close()
     if fails:
